@@ -456,6 +456,14 @@ func (w *hostileWorld) apply(s Step) {
 			w.safeInject(ipv4.ProtocolNumber, codec.IPv4([]byte(B4), []byte(A4), codec.ProtoTCP, w.nid, 64, false, false, 0, fill))
 		}
 		w.Probes["fin_with_data_ahead_of_a_hole"]++
+	case "udpflood":
+		// well-formed datagrams for the bound socket, more than its receive buffer holds, nobody reading:
+		// the overflow is dropped, nothing else happens
+		for i := 0; i < 36+s.A%16 && w.Viol == nil; i++ {
+			w.nid++
+			w.safeInject(ipv4.ProtocolNumber, codec.IPv4([]byte(B4), []byte(A4), codec.ProtoUDP, w.nid, 64, false, false, 0, codec.EncodeUDP([]byte(B4), []byte(A4), 9000, 5353, make([]byte, 1000+s.B%400))))
+		}
+		w.Probes["bound_socket_flooded_beyond_its_buffer"]++
 	case "findup":
 		// well-formed, in a particular order: a connection whose local side has shut down writing, so that its
 		// FIN is all that is in flight; three identical ACKs that do not cover the FIN, then one that does
@@ -613,7 +621,9 @@ func (w *hostileWorld) serve() {
 
 func (w *hostileWorld) next() Step {
 	r := w.Rng
-	switch r.Pick(12, 2, 4, 2, 2, 1, 3, 1, 1, 1) {
+	switch r.Pick(12, 2, 4, 2, 2, 1, 3, 1, 1, 1, 1) {
+	case 10:
+		return Step{Op: "udpflood", A: r.Intn(16), B: r.Intn(400)}
 	case 9:
 		return Step{Op: "findup", A: r.Intn(60000), B: r.Intn(3)}
 	case 0:
